@@ -43,6 +43,11 @@ RULE = ("Values: Hypothesis draws family, order (0..3 forced, otherwise uniform 
         "(compute_z_zprime_Q2d through Q2d_nm_c_to_a_b or a hand-built table - drawn sets of 1..6 (n, m), n <= 8 / 12, |m| <= 20, so that azimuthal orders "
         "without a term are empty rows before and between populated ones; compute_z_zprime_Qbfs for n = 0..N): the sag must be Q2d(n, m) / Qbfs(n), and the "
         "returned analytic slopes must be orthonormal among themselves and against the complex-step slopes of Q2d / Qbfs under Forbes' inner product.  "
+        "One Forbes term u^m [a cos(m t) + b sin(m t)] Q_n^m(u^2) is also given to both families of compute_z_zprime_Q2d at once - (a, b) = (1, 1), "
+        "(.5, .5), (cos, sin) of a drawn angle, (1, -1), (1, 0), (0, 1); through the packer or a hand-built table whose sine rows are equal values in "
+        "separate objects, the same row objects, or the very table object given as cosine table -: the sag must be hypot(a, b) Q2d(n, m, u, t - atan2(b, a)/m) "
+        "and the returned slopes / hypot(a, b) orthonormal among themselves and against the complex-step slopes of the turned Q2d.  zernike_nm, Q2d, xy "
+        "and hopkins are also called with one array object for two coordinate arguments (r and t, x and y, r and H).  "
         "Non-trivial = order >= 6 or non-tabulated shape parameter or scalar / N-D points or a Gram entry with m != n or a non-default presentation "
         "of the arguments.")
 ASSUMPTIONS = [
@@ -239,6 +244,10 @@ def check_dickson(case, ctx):
         U.check_close(lhs, rhs, RT, bucket + ':identity', 'D_n(u + a/u, a) = u^n + (a/u)^n, n=%d, a=%r' % (n, a), atol=RT * float(np.max(np.abs(rhs))))
 
 
+# one object given for two coordinate arguments (r and t, x and y, r and H): the second then holds the values of the first
+ALIAS = st.sampled_from([False, False, False, False, True])
+
+
 # ---- XY monomials and Hopkins -------------------------------------------------------------------------
 def strat_xy(tier):
     e = st.one_of(st.sampled_from([0, 0, 1, 2]), st.integers(0, 12))
@@ -248,7 +257,7 @@ def strat_xy(tier):
         'grid': st.sampled_from(['mesh', 'mesh', 'free']), 'gshape': st.tuples(s, s).map(list), 'shape': point_shapes(), 'seed': U.seeds,
         'v': variants(('f64', 'f32', 'int')),
         # a coordinate that is exactly zero everywhere: the on-axis field point H = 0 (H^0 = 1), the pupil centre r = 0, the meridian t = 0
-        'zero': st.sampled_from(['none', 'none', 'none', 'H', 'H', 'r', 't'])})
+        'zero': st.sampled_from(['none', 'none', 'none', 'H', 'H', 'r', 't']), 'alias': ALIAS})
 
 
 def ipow(x, k):
@@ -287,18 +296,24 @@ def check_xy(case, ctx):
             x, _ = make_points(case['seed'], shape, -2.0, 2.0, False, salt=1, kind=kind)
             y, _ = make_points(case['seed'], shape, -2.0, 2.0, False, salt=2, kind=kind)
             kw = {'cartesian_grid': False}
+        alias = bool(case.get('alias', False)) and grid == 'free'
+        if alias:
+            y = x
+        ctx.label('x-is-y' if alias else 'x-and-y-separate')
         nt = var_labels(ctx, v, shape)
         ctx.nt(nt or m + n >= 6 or 0 in (m, n) or grid == 'free')
-        xarg, yarg = present(x, shape, v), present(y, shape, v, layout=v['layout2'])
+        xarg = present(x, shape, v)
+        yarg = xarg if alias else present(y, shape, v, layout=v['layout2'])
         want = ipow(x, m) * ipow(y, n)
 
         def verify(got, bucket):
             U.check_shape(got, np.shape(want), bucket, 'xy(%d,%d) %s' % (m, n, grid))
             U.check_close(got, want, rt, bucket, 'xy(m=%d, n=%d, x: %s) vs x^m y^n' % (m, n, kind))
         if v['pre32']:
-            call(ctx, 'float32', xy, m, n, as32(xarg), as32(yarg), **kw)
-        got = call(ctx, grid, xy, m, n, xarg, yarg, **kw)
-        verify(got, 'xy')
+            x32 = as32(xarg)
+            call(ctx, 'float32', xy, m, n, x32, x32 if alias else as32(yarg), **kw)
+        got = call(ctx, grid + (':x-is-y' if alias else ''), xy, m, n, xarg, yarg, **kw)
+        verify(got, 'xy:x-is-y' if alias else 'xy')
         reuse_check(ctx, v, 'xy', got, (xarg, yarg), lambda: ctx.call(xy, n + 1, m, xarg, yarg, **kw), lambda: ctx.call(xy, m, n, xarg, yarg, **kw), verify)
     else:
         a, b, c, shape = case['a'], case['b'], case['c'], case['shape']
@@ -315,10 +330,13 @@ def check_xy(case, ctx):
             rr = rr * 0
         elif zero == 't':
             t = t * 0
-        ctx.label('all-zero:' + zero)
+        alias = bool(case.get('alias', False)) and zero != 'H'
+        if alias:
+            Hh = rr             # the field coordinate is the very object given as pupil radius
+        ctx.label('all-zero:' + zero, 'r-is-H' if alias else 'r-and-H-separate')
         rarg = present(rr, shape, v)
         targ = present(t, shape, v, layout=v['layout2'], kind='f32' if kind == 'f32' else 'f64')
-        harg = present(Hh, shape, v)
+        harg = rarg if alias else present(Hh, shape, v)
         az = np.sin(abs(a) * np.asarray(t)) if a < 0 else np.cos(a * np.asarray(t))
         want = az * ipow(rr, b) * ipow(Hh, c)
         rth = max(rt, 1e-5 * (1 + abs(a))) if kind == 'f32' else rt      # float32 angle: |a| * eps32 * |t| in the argument of cos / sin
@@ -328,8 +346,8 @@ def check_xy(case, ctx):
             U.check_close(got, want, rth, bucket, 'hopkins(a=%d, b=%d, c=%d, r: %s) vs cos/sin(|a| t) r^b H^c' % (a, b, c, kind), atol=1e-15 if kind != 'f32' else rth)
         if v['pre32']:
             call(ctx, 'float32', hopkins, a, b, c, as32(rarg), as32(targ), as32(harg))
-        got = call(ctx, 'a<0' if a < 0 else 'a>=0', hopkins, a, b, c, rarg, targ, harg)
-        verify(got, 'hopkins')
+        got = call(ctx, ('a<0' if a < 0 else 'a>=0') + (':r-is-H' if alias else ''), hopkins, a, b, c, rarg, targ, harg)
+        verify(got, 'hopkins:r-is-H' if alias else 'hopkins')
         reuse_check(ctx, v, 'hopkins', got, (rarg, targ, harg), lambda: ctx.call(hopkins, -a, c, b + 1, rarg, targ, harg),
                     lambda: ctx.call(hopkins, a, b, c, rarg, targ, harg), verify)
 
@@ -360,7 +378,7 @@ def strat_zernike(tier):
     nmax = {'quick': 30, 'thorough': 60}[tier]
     nm = st.one_of(nm_pairs_ext(nmax), nm_pairs_ext(nmax), nm_pairs_ext(nmax), nm_pairs_ext(nmax, ZERNIKE_HIGH))   # incl. the extremes m = +-n, 0 / +-1
     return st.fixed_dictionaries({'nm': nm, 'norm': st.booleans(), 'shape': point_shapes(), 'edge': st.booleans(), 'seed': U.seeds,
-                                  'v': variants(('f64', 'f32', 'int'))})
+                                  'v': variants(('f64', 'f32', 'int')), 'alias': ALIAS})
 
 
 def check_zernike(case, ctx):
@@ -377,22 +395,28 @@ def check_zernike(case, ctx):
         v['itype'] = 'int64'
         if v['xkind'] == 'f32':
             v['xkind'] = 'f64'
+    if case.get('alias', False) and v['xkind'] == 'int':
+        v['xkind'] = 'f64'          # the azimuth is never integer-typed (cos of an int8 array is half precision in numpy)
     kind = v['xkind']
     r, rbase = make_points(case['seed'], shape, 0.0, 1.0, case['edge'], salt=1, kind=kind)
     t, tbase = make_points(case['seed'], shape, -math.pi, 2 * math.pi, False, salt=2, kind='f32' if kind == 'f32' else 'f64')
     rarg = present(r, shape, v)
     targ = present(t, shape, v, layout=v['layout2'], kind='f32' if kind == 'f32' else 'f64')
+    alias = bool(case.get('alias', False))
+    if alias:
+        t, tbase, targ = r, rbase, rarg
     ctx.label(n_class(n), 'm=0' if m == 0 else 'm<0' if m < 0 else 'm>0', 'norm' if norm else 'no-norm', shape_label(shape),
-              'edge' if case['edge'] else 'interior', 'm=+-n' if am == n and n else 'm-inner')
+              'edge' if case['edge'] else 'interior', 'm=+-n' if am == n and n else 'm-inner', 'r-is-t' if alias else 'r-and-t-separate')
     nt = var_labels(ctx, v, shape)
-    ctx.nt(nt or n >= 6 or isinstance(shape, str) or len(shape) != 1)
+    ctx.nt(nt or n >= 6 or isinstance(shape, str) or len(shape) != 1 or alias)
     if v['pre32']:
-        call(ctx, 'float32', zernike_nm, n, m, as32(rarg), as32(targ), norm=norm)
+        r32 = as32(rarg)
+        call(ctx, 'float32', zernike_nm, n, m, r32, r32 if alias else as32(targ), norm=norm)
     az = np.ones_like(tbase) if m == 0 else np.sin(am * tbase) if m < 0 else np.cos(m * tbase)
     N = math.sqrt(2 * (n + 1) / (2 if m == 0 else 1)) if norm else 1.0
     want_full = N * zernike_radial_exact(n, am, rbase) * az
     want = shaped(want_full, shape)
-    bucket = 'zernike_nm:%s' % ('m=0' if m == 0 else 'm!=0')
+    bucket = 'zernike_nm:%s%s' % ('m=0' if m == 0 else 'm!=0', ':r-is-t' if alias else '')
     rt = rtol_of(v, n, RT)
 
     def verify(got, bucket):
@@ -619,7 +643,8 @@ def qbfs_table(n, x):
 def strat_q_values(tier):
     return st.fixed_dictionaries({
         'fn': st.sampled_from(['Qcon', 'Qbfs', 'Qbfs', 'Q2d']), 'n': orders(tier), 'n5': st.integers(0, 5), 'nq': st.one_of(st.integers(0, 12), st.sampled_from([20, 30])),
-        'm': st.one_of(st.integers(-10, 10), st.sampled_from([-20, 20, 1, -1, 0])), 'shape': point_shapes(), 'edge': st.booleans(), 'seed': U.seeds, 'v': variants()})
+        'm': st.one_of(st.integers(-10, 10), st.sampled_from([-20, 20, 1, -1, 0])), 'shape': point_shapes(), 'edge': st.booleans(), 'seed': U.seeds, 'v': variants(),
+        'alias': st.sampled_from([False, True, False])})
 
 
 def check_q_values(case, ctx):
@@ -628,8 +653,8 @@ def check_q_values(case, ctx):
     from prysm.polynomials import Qbfs, Qcon, Q2d
     fn, shape = case['fn'], case['shape']
     v = var_of(case)
-    if fn == 'Q2d' and v['xkind'] == 'complex':
-        v['xkind'] = 'f64'
+    if fn == 'Q2d' and (v['xkind'] == 'complex' or (v['xkind'] == 'int' and case.get('alias', False))):
+        v['xkind'] = 'f64'          # the azimuth is never integer-typed (cos of an int8 array is half precision in numpy)
     kind = v['xkind']
     u, base = make_points(case['seed'], shape, 0.0, 1.0, case['edge'], salt=1, kind=kind)
     uarg = present(u, shape, v)
@@ -686,8 +711,13 @@ def check_q_values(case, ctx):
         ctx.nt(True)
         t, tbase = make_points(case['seed'], shape, -math.pi, 2 * math.pi, False, salt=2, kind='f32' if kind == 'f32' else 'f64')
         targ = present(t, shape, v, layout=v['layout2'], kind='f32' if kind == 'f32' else 'f64')
+        alias = bool(case.get('alias', False))
+        if alias:
+            t, tbase, targ = u, base, uarg
+        ctx.label('u-is-t' if alias else 'u-and-t-separate')
         if v['pre32']:
-            call(ctx, 'float32', Q2d, n, m, as32(uarg), as32(targ))
+            u32 = as32(uarg)
+            call(ctx, 'float32', Q2d, n, m, u32, u32 if alias else as32(targ))
         flat = ctx.call(Q2d, n, m, base.copy(), tbase.copy())
         rt = rtol_of(v, n + abs(m), 1e-13)
 
@@ -695,8 +725,8 @@ def check_q_values(case, ctx):
             U.check_shape(got, np.shape(shaped(flat, shape)), 'Q2d', 'Q2d(%d,%d) for u of shape %s' % (n, m, shape))
             U.check_close(got, shaped(flat, shape), rt, bucket, 'Q2d(n=%d, m=%d) on %s %s vs the same points as a float64 vector' % (n, m, kind, shape_label(shape)),
                           atol=rt * float(np.max(np.abs(flat))))
-        got = call(ctx, 'm=0' if m == 0 else 'm!=0', Q2d, n, m, uarg, targ)
-        verify(got, 'Q2d:shape-dependence')
+        got = call(ctx, ('m=0' if m == 0 else 'm!=0') + (':u-is-t' if alias else ''), Q2d, n, m, uarg, targ)
+        verify(got, 'Q2d:shape-dependence' + (':u-is-t' if alias else ''))
         reuse_check(ctx, v, 'Q2d', got, (uarg, targ), lambda: ctx.call(Q2d, n + 1, -m, uarg, targ), lambda: ctx.call(Q2d, n, m, uarg, targ), verify)
         if m == 0:
             U.check_close(flat, ctx.call(Qbfs, n, base.copy()), 1e-13, 'Q2d:m=0', 'Q2d(n,0) must be Qbfs(n)')
@@ -895,6 +925,101 @@ def check_q2d_onehot(case, ctx):
         '<grad Q%s as returned by compute_z_zprime_Q2d (%s), grad Q%s by complex step of Q2d>' % (nms[i], table, nms[j])))
 
 
+# ---- one 2D-Q term u^m [a cos(m t) + b sin(m t)] Q_n^m(u^2) given to both families of the sum evaluator ------------------
+TWIN_WEIGHTS = ['ones', 'half', 'clocked', 'clocked', 'negated', 'cos-only', 'sin-only', 'ones']
+
+
+def strat_q2d_twin(tier):
+    NN = {'quick': 8, 'thorough': 12}[tier]
+    term = st.tuples(st.one_of(st.integers(0, NN), st.integers(3, NN)), st.one_of(st.sampled_from([1, 1, 1, 2, 3]), st.integers(1, 10))).map(list)
+    return st.fixed_dictionaries({'terms': st.lists(term, min_size=1, max_size=5, unique_by=lambda t: (t[0], t[1])),
+                                  'weights': st.sampled_from(TWIN_WEIGHTS), 'angle': U.nice_float(0.0, 6.25),
+                                  'table': st.sampled_from(['direct', 'packer', 'direct']), 'rows': st.sampled_from(['one', 'all']),
+                                  'share': st.sampled_from(['same-rows', 'same-table', 'separate']),
+                                  'cs_as': st.sampled_from(['list', 'list', 'tuple', 'array']), 'layout': U.layouts})
+
+
+def check_q2d_twin(case, ctx):
+    """Forbes' term of azimuthal order m and radial order n, u^m [a cos(m t) + b sin(m t)] Q_n^m(u^2), evaluated by compute_z_zprime_Q2d with the
+    pair (a, b) as the only non-zero coefficients - (1, 1), (.5, .5), (cos, sin) of a drawn angle, (1, -1), (1, 0), (0, 1); as equal values in
+    separate vectors, the same vector object in both tables, or one table object given for both families - is the polynomial Q_n^m turned by
+    atan2(b, a) / m about the axis and scaled by hypot(a, b): sag == hypot(a, b) Q2d(n, m, u, t - phi), and the returned radial / azimuthal slopes
+    divided by hypot(a, b) are orthonormal among themselves and against the complex-step slopes of Q2d under Forbes' inner product."""
+    from prysm.polynomials import Q2d
+    from prysm.polynomials.qpoly import compute_z_zprime_Q2d, Q2d_nm_c_to_a_b
+    terms = [(int(n), int(m)) for n, m in case['terms']]
+    wk, table, rows, share, lay, cs_as = case['weights'], case['table'], case['rows'], case['share'], case.get('layout', 'C'), case.get('cs_as', 'list')
+    ang = float(case['angle'])
+    a, b = {'ones': (1.0, 1.0), 'half': (0.5, 0.5), 'clocked': (math.cos(ang), math.sin(ang)), 'negated': (1.0, -1.0), 'cos-only': (1.0, 0.0),
+            'sin-only': (0.0, 1.0)}[wk]
+    if a != b or table == 'packer':
+        share = 'separate'          # one object for both families holds one set of values
+    rho = math.hypot(a, b)
+    ctx.nt(True)
+    nmax = max(n for n, _ in terms)
+    mmax = max(m for _, m in terms)
+    K = 2 * nmax + mmax + 10
+    K += K % 2
+    T = 2 * mmax + 3
+    un = cheb_nodes(K)[:K // 2]      # the nodes in (0, 1): after the (exact) sum over theta the integrand is even in u
+    th = 2 * np.pi * np.arange(T) / T
+    Ug, Tg = np.meshgrid(un, th, indexing='ij')
+    Ua, Ta = U.relayout(Ug.copy(), lay), U.relayout(Tg.copy(), lay)
+    ctx.tally('gram_entries', 2 * len(terms) ** 2)
+    ctx.label('weights:' + wk, 'table:' + table, 'rows:' + rows, 'share:' + share, 'layout:' + lay, 'cs-as:' + cs_as, 'terms=%d' % len(terms),
+              'families-equal' if a == b else 'families-differ')
+    cls = '%s:%s' % ('cosine-and-sine-coefficients-equal' if a == b else 'weights-' + wk,
+                     {'separate': 'separate-objects', 'same-rows': 'same-row-objects', 'same-table': 'ams-is-bms'}[share])
+
+    def box(v):
+        return tuple(v) if cs_as == 'tuple' else np.array(v) if cs_as == 'array' and len(v) else list(v)
+    rows_a, rows_c = [], []
+    for k, (n, m) in enumerate(terms):
+        use = terms if rows == 'all' else [terms[k]]
+        ctx.label('m=1' if m == 1 else 'm=2,3' if m <= 3 else 'm=4..10', 'n>=3' if n >= 3 else 'n<3',
+                  'm=1,n>=3,equal' if m == 1 and n >= 3 and a == b else 'other-term')
+        if table == 'packer':
+            nms = [(nn, sg * mm) for nn, mm in use for sg in (1, -1)]
+            cs = [(a if sg > 0 else b) if (nn, mm) == (n, m) else 0.0 for nn, mm in use for sg in (1, -1)]
+            cm0, ams, bms = call(ctx, cls, Q2d_nm_c_to_a_b, nms, box(cs))
+        else:
+            M = max(mm for _, mm in use)
+            lens = [max([nn + 1 for nn, mm in use if mm == i + 1] or [0]) for i in range(M)]
+            ra = [[0.0] * L for L in lens]
+            rb = [[0.0] * L for L in lens]
+            ra[m - 1][n], rb[m - 1][n] = a, b
+            cm0 = []
+            ams = [box(v) for v in ra]
+            bms = ams if share == 'same-table' else list(ams) if share == 'same-rows' else [box(v) for v in rb]
+            if cs_as == 'tuple':
+                ams = tuple(ams)
+                bms = ams if share == 'same-table' else tuple(bms)
+        res = call(ctx, cls, compute_z_zprime_Q2d, cm0, ams, bms, Ua, Ta)
+        ctx.require(isinstance(res, tuple) and len(res) == 3, 'compute_z_zprime_Q2d:return', 'expected (z, dr, dt)')
+        z, dr, dt = (np.asarray(e) for e in res)
+        phi = math.atan2(b, a) / m
+        want = rho * np.asarray(ctx.call(Q2d, n, m, Ug, Tg - phi))
+        what = 'compute_z_zprime_Q2d with the coefficients of (n=%d, m=%d) and (n=%d, m=%d) set to %r and %r (%s, %s, rows of %s)' % (n, m, n, -m, a, b, table, share, use)
+        for e, nm in ((z, 'sag'), (dr, 'radial slope'), (dt, 'azimuthal slope')):
+            U.check_shape(e, Ug.shape, 'compute_z_zprime_Q2d:term-in-both-families:' + cls, nm + ' of ' + what)
+        U.check_close(z, want, 1e-9, 'compute_z_zprime_Q2d:term-in-both-families:value:' + cls,
+                      what + ' vs %.6g * Q2d(%d, %d, u, t - %.6g)' % (rho, n, m, phi), atol=1e-9)
+        rows_a.append(np.concatenate([dr.ravel(), (dt / Ug).ravel()]) / rho)
+        rows_c.append(np.concatenate([(np.imag(ctx.call(Q2d, n, m, Ug + 1j * H, Tg - phi + 0j)) / H).ravel(),
+                                      (np.imag(ctx.call(Q2d, n, m, Ug + 0j, Tg - phi + 1j * H)) / H / Ug).ravel()]))
+    Da, Dc = np.array(rows_a), np.array(rows_c)
+    wgt = (np.pi / K) * (2 * np.pi / T) / np.pi ** 2
+    eye = np.eye(len(terms))
+    gram_assert(ctx, Da @ Da.T * wgt, eye, 1e-8, lambda i, j: (
+        'compute_z_zprime_Q2d:term-in-both-families:slope-gram:%s:%s' % ('norm' if i == j else 'orthogonality', cls),
+        '<grad T%s, grad T%s> / (a^2 + b^2), T_nm = a Q_n^m + b Q_n^-m with (a, b) = (%r, %r), both gradients as returned by compute_z_zprime_Q2d (%s, %s)' % (
+            terms[i], terms[j], a, b, table, share)))
+    gram_assert(ctx, Da @ Dc.T * wgt, eye, 1e-8, lambda i, j: (
+        'compute_z_zprime_Q2d:term-in-both-families:slope-gram-vs-Q2d:%s:%s' % ('norm' if i == j else 'orthogonality', cls),
+        '<grad T%s as returned by compute_z_zprime_Q2d (%s, %s, (a, b) = (%r, %r)) / hypot(a, b), grad Q%s turned by atan2(b, a)/m, by complex step of Q2d>' % (
+            terms[i], table, share, a, b, terms[j])))
+
+
 # ---- sequence evaluators against the same independent definitions ----------------------------------------
 def _order_list(tier):
     top = {'quick': 40, 'thorough': 100}[tier]
@@ -1078,5 +1203,6 @@ CLAUSES = [
     HypClause('q2d_gram', strat_q2d_gram, check_q2d_gram, examples={'quick': 100, 'thorough': 500}, shards={'quick': 2, 'thorough': 8}),
     HypClause('jacobi_weight', strat_weight, check_weight, examples={'quick': 400, 'thorough': 2000}, shards={'quick': 1, 'thorough': 2}),
     HypClause('q2d_one_coefficient', strat_q2d_onehot, check_q2d_onehot, examples={'quick': 300, 'thorough': 1500}, shards={'quick': 1, 'thorough': 4}),
+    HypClause('q2d_term_in_both_families', strat_q2d_twin, check_q2d_twin, examples={'quick': 300, 'thorough': 1500}, shards={'quick': 1, 'thorough': 4}),
     HypClause('values_seq', strat_seq, check_seq, examples={'quick': 500, 'thorough': 3000}, shards={'quick': 2, 'thorough': 8}),
 ]
